@@ -1,7 +1,7 @@
 ---- MODULE MCJsString ----
 EXTENDS JsString
-\* a, 1, -, space, NBSP (Latin-1 whitespace), e-acute, y-diaeresis, pi, BOM (whitespace), high / low surrogate
-AlphaFull == {97, 49, 45, 32, 160, 233, 255, 960, 65279, 55357, 56832}
+\* a, 1, -, space, NBSP (Latin-1 whitespace), e-acute, y-diaeresis, s-caron (U+0161: low byte = "a"), pi, BOM (whitespace), high / low surrogate
+AlphaFull == {97, 49, 45, 32, 160, 233, 255, 353, 960, 65279, 55357, 56832}
 AlphaSmall == {97, 233, 960, 55357, 56832}
 EmitInv == Emit
 ====
